@@ -20,6 +20,124 @@ use avra_lib::instruction::InstructionOps;
 use avra_lib::parser::{CodePoint, DataDefine, Item, Segment, SegmentType};
 use failure::Error;
 
+// ------------------------------------------------------------------------------------------
+// Models used by the `pass` mode (Kani stubs).  `Vec<(CodePoint, Item)>` elements never have
+// foldable enum tags (tuple + push/clone: measured in a micro crate), so inside the pass loops
+// CBMC walks every variant arm of everything that touches an item.  Two functions made that
+// hopeless and are replaced in pass-level harnesses only:
+//   * `instruction::process` (a symbolic `Operation` walks all 25 arms: never finished) ->
+//     `process_model`: the ISA reference of refisa.rs on leaf operands.  `process` itself is
+//     the subject of C01/C03/C04.
+//   * `<Item as Clone>::clone` -> `item_clone_model`: a field-by-field copy restricted to the
+//     item shapes the scenarios use (anything else trips an assertion).
+// Everything else in pass 1 / pass 2 is the real code.
+
+use avra_lib::context::Context;
+
+pub fn process_model(
+    op: &Operation,
+    op_args: &Vec<InstructionOps>,
+    current_address: u32,
+    constants: &dyn Context,
+) -> Result<Vec<u8>, Error> {
+    let avr8l = constants.get_device().is_avr8l();
+    let n = op_args.len();
+    if n > 2 {
+        return Err(failure::err_msg("model: too many operands"));
+    }
+    let mut a = [A::K(0), A::K(0), A::K(0)];
+    let mut i = 0;
+    while i < n {
+        a[i] = match &op_args[i] {
+            InstructionOps::R8(r) => A::R(r.number() as u8),
+            InstructionOps::E(e) => {
+                // register alias (like get_r8) or leaf expression (like Expr::run on a leaf)
+                let alias = match e {
+                    Expr::Ident(name) => constants.get_def(name),
+                    _ => None,
+                };
+                match alias {
+                    Some(r) => A::R(r.number() as u8),
+                    None => match crate::stubs::run_leaf(e, constants) {
+                        Ok(v) => A::K(v),
+                        Err(_) => return Err(failure::err_msg("model: unbound symbol")),
+                    },
+                }
+            }
+            InstructionOps::Index(_) => {
+                assert!(false, "process_model: index operands are not used by the pass scenarios");
+                A::K(0)
+            }
+        };
+        i += 1;
+    }
+    match ref_encode(op, &a[..n], current_address, avr8l) {
+        Some(e) => {
+            let mut v = vec![(e.w0 & 0xff) as u8, (e.w0 >> 8) as u8];
+            if let Some(w1) = e.w1 {
+                v.push((w1 & 0xff) as u8);
+                v.push((w1 >> 8) as u8);
+            }
+            Ok(v)
+        }
+        None => Err(failure::err_msg("model: not encodable")),
+    }
+}
+
+fn clone_ops(v: &Vec<Operand>) -> Vec<Operand> {
+    let mut out = Vec::with_capacity(v.len());
+    let mut i = 0;
+    while i < v.len() {
+        out.push(match &v[i] {
+            Operand::E(e) => Operand::E(crate::stubs::clone_leaf(e)),
+            Operand::S(s) => Operand::S(s.clone()),
+        });
+        i += 1;
+    }
+    out
+}
+
+fn clone_args(v: &Vec<InstructionOps>) -> Vec<InstructionOps> {
+    let mut out = Vec::with_capacity(v.len());
+    let mut i = 0;
+    while i < v.len() {
+        out.push(match &v[i] {
+            InstructionOps::R8(r) => InstructionOps::R8(*r),
+            InstructionOps::E(e) => InstructionOps::E(crate::stubs::clone_leaf(e)),
+            InstructionOps::Index(_) => {
+                assert!(false, "item_clone_model: index operands are not used by the pass scenarios");
+                filler()
+            }
+        });
+        i += 1;
+    }
+    out
+}
+
+pub fn item_clone_model(it: &Item) -> Item {
+    match it {
+        Item::ReserveData(n) => Item::ReserveData(*n),
+        Item::Data(t, ops) => Item::Data(
+            match t {
+                DataDefine::Db => DataDefine::Db,
+                DataDefine::Dw => DataDefine::Dw,
+                DataDefine::Dd => DataDefine::Dd,
+                DataDefine::Dq => DataDefine::Dq,
+            },
+            clone_ops(ops),
+        ),
+        Item::Def(n, e) => Item::Def(n.clone(), crate::stubs::clone_leaf(e)),
+        Item::Undef(n) => Item::Undef(n.clone()),
+        Item::Set(n, e) => Item::Set(n.clone(), crate::stubs::clone_leaf(e)),
+        Item::Pragma(_) => {
+            assert!(false, "item_clone_model: pragma items are not used by the pass scenarios");
+            Item::ReserveData(0)
+        }
+        Item::Instruction(op, args) => Item::Instruction(op.clone(), clone_args(args)),
+        Item::Label(n) => Item::Label(n.clone()),
+    }
+}
+
 fn cp(n: usize) -> CodePoint {
     CodePoint { line_num: n, num: 2 }
 }
@@ -59,7 +177,7 @@ fn note_result<S: Src>(s: &mut S, r: &Result<BuildResultPass2, Error>) {
 }
 
 /// S1 — code segment at word address `start` (0..=2; 0 means "no .org"):
-///     <instruction of 1 or 2 words> ; l: ; .dw l
+///     <instruction of 1 or 2 words> ; l: ; .dw l ; .dw pc
 /// which: 0 nop, 1 jmp k, 2 lds r, k (two words, or one word on a reduced core), 3 sts k, r
 /// Expected image: `start` zero words, the instruction's reference words, then the word
 /// `start + length`.
@@ -91,7 +209,12 @@ pub fn layout_instr<S: Src>(s: &mut S, which: u8, avr8l: bool) {
     };
     let n = args.len();
     let expect = ref_encode(&op, &a[..n], start, avr8l);
-    let items = vec![(cp(1), Item::Instruction(op, args)), (cp(2), label("l")), (cp(3), dw_sym("l"))];
+    let items = vec![
+        (cp(1), Item::Instruction(op, args)),
+        (cp(2), label("l")),
+        (cp(3), dw_sym("l")),
+        (cp(4), dw_sym("pc")),
+    ];
     let res = run_passes(vec![seg(SegmentType::Code, start, items)], &common);
     cov!(res.is_ok(), "!segment assembled");
     #[cfg(not(kani))]
@@ -107,7 +230,7 @@ pub fn layout_instr<S: Src>(s: &mut S, which: u8, avr8l: bool) {
     if let (Ok(b), Some(e)) = (&res, &expect) {
         let len: usize = if e.w1.is_some() { 2 } else { 1 };
         let st = start as usize;
-        chk!(s, b.code.len() == 2 * (st + len + 1), "C02: image length differs from .org gap + instruction + data");
+        chk!(s, b.code.len() == 2 * (st + len + 2), "C02: image length differs from .org gap + instruction + data");
         let mut gap_zero = true;
         if st > 0 && word_at(&b.code, 0) != Some(0) {
             gap_zero = false;
@@ -124,6 +247,11 @@ pub fn layout_instr<S: Src>(s: &mut S, which: u8, avr8l: bool) {
             s,
             word_at(&b.code, st + len) == Some((st + len) as u16),
             "C02: label value differs from the position where the next item was emitted"
+        );
+        chk!(
+            s,
+            word_at(&b.code, st + len + 1) == Some((st + len + 1) as u16),
+            "C03: pc is not the address of the item being emitted"
         );
     }
     core::mem::forget(res);
